@@ -33,9 +33,11 @@ PROFILES = {
     # added / removed / re-typed (Y) before a reload; P asks the second unit
     # ... and, in 35 % of the cases, a shorthand RIB (K n: `filter_names` with n+1 entries = a physical RIB and n generated vRIBs) whose
     # vRIB endpoints are asked (N i af p) at start-up and after every reload, also reloads that change the number of vRIBs
-    "C13": dict(peers=pipegen.DISTINCT_PEERS, reup=False, metrics=False, query_ops=True, reload=True, reload_pc=100, variants=True, scripts=40, vribs=35, ingress=25, bgp=15, bgp_reloads=True),
+    "C13": dict(peers=pipegen.DISTINCT_PEERS, reup=False, metrics=False, query_ops=True, reload=True, reload_pc=100, variants=True, scripts=40, vribs=35, ingress=25, bgp=15, bgp_reloads=True, ing_filters=20),
     # C10: which script a unit's rib-in-pre filter comes from: every case has a script story (F / W / Y / P around reloads)
-    "C10": dict(peers=pipegen.DISTINCT_PEERS, reup=False, metrics=False, query_ops=True, reload=False, scripts=100),
+    # ... `ing_filters` = % of the script stories whose scripts also have the ingress units' own filters (variants 10+r / 20+r: bmp-in
+    # rejects the peers of AS 65002 / 65003, bgp-in the speaker of AS 65101 / 65100), `bgp` = % of cases around the bgp-tcp-in unit
+    "C10": dict(peers=pipegen.DISTINCT_PEERS, reup=False, metrics=False, query_ops=True, reload=False, scripts=100, ing_filters=35, bgp=10),
     # C14: routers come back, also after the listener was re-bound; G k = how many ingress ids router k has been given
     # ... and, in 30 % of the cases, a router that connects a SECOND time while its first connection is open (C2 k; the old one stays
     # open or ends later: X2 k); RL = routers listed
@@ -133,8 +135,29 @@ SCRIPT_CORPUS = [
     "F 1;C 0;I 0;U 0 0 0;W 2;Y 1;FH;H;R 0 0 0 1 1,2,3 0 -;Q 0 1;Q 0 2;P 0 1;P 0 2;P 0 3",
     "F 2;FH;C 0;I 0;U 0 0 0;Y 1;FH;L;R 0 0 0 1 1,2,3 0 -;Q 0 2;Q 0 3;P 0 2;P 0 3",
 ]
-CORPUS["C10"] = SCRIPT_CORPUS
-CORPUS["C13"] = CORPUS["C13"] + SCRIPT_CORPUS + [
+# The ingress units' own filters: script variants 10+r / 20+r = bmp-in rejects every message about a peer of AS 65002 (pool peer 6) /
+# 65003 (peer 8), bgp-in every UPDATE of the speaker of AS 65101 (address 1) / 65100 (address 0); rib-in-pre as variant r.
+INGRESS_FILTER_CORPUS = [
+    # the rejected peer's Peer Up never happens: its routes never reach the RIB, the other peer's do (and rib-in-pre still rejects prefix 1)
+    "F 11;C 0;I 0;U 0 0 0;U 0 6 0;R 0 0 0 1 1,2,3 0 -;R 0 6 0 2 2,3 0 -;Q 0 1;Q 0 2;Q 0 3;S 0 6;D 0 6;Q 0 2",
+    "F 20;C 0;C 1;I 0;I 1;U 0 8 0;U 1 8 1;U 1 6 0;R 0 8 0 1 2 0 -;R 1 8 0 1 2 0 -;R 1 6 0 2 2,3 0 -;Q 0 2;Q 0 3;X 1;Q 0 2",
+    # mutation 'try_lock() at the bmp-tcp-in fetch only' (C10 round 5): the unit starts while something else holds the script's mutex
+    "F 11;FH;C 0;I 0;U 0 0 0;U 0 6 0;R 0 6 0 2 2,3 0 -;R 0 0 0 1 2 0 -;Q 0 2;Q 0 3",
+    "F 29;FH;C 0;I 0;U 0 8 0;R 0 8 0 1 1,2 0 -;Q 0 1;Q 0 2",
+    # a running ingress unit keeps what it fetched: edited away / edited in and reloaded - nothing changes for bmp-in
+    "F 21;C 0;I 0;U 0 8 0;U 0 0 0;W 2;H;R 0 8 0 1 2,3 0 -;R 0 0 0 1 3 0 -;Q 0 2;Q 0 3;W 0;L;R 0 8 0 2 4 0 -;Q 0 4",
+    "C 0;I 0;U 0 6 0;W 11;Y 1;H;R 0 6 0 1 1,2,3 0 -;Q 0 1;Q 0 2;P 0 1;P 0 2",
+    # the bgp-tcp-in unit: the UPDATEs of the rejected speaker never reach the gate; its session is there all the same (BM, BZ)
+    "F 11;BO 0;BO 1;BA 0 1 2,3 -;BA 1 2 2,4 -;Q 0 2;Q 0 3;Q 0 4;BM;BZ 1;Q 0 2;BM",
+    "F 20;FH;BO 0;BO 1;BA 0 1 2,3 -;BA 1 2 2,4 -;Q 0 2;Q 0 3;Q 0 4",
+    # mutation 'try_lock() at the bgp-tcp-in fetch only'
+    "F 11;FH;BO 1;BA 1 2 2,4 -;BO 0;BA 0 1 2 -;Q 0 2;Q 0 4;C 0;I 0;U 0 6 0;R 0 6 0 1 4 0 -;Q 0 4",
+    # a bmp-in unit that a reload STARTS fetches the filter of the script that reload names; bmp-in2 keeps the start-up script's
+    "F 1;C 0;C 4;I 0;I 4;U 0 6 0;U 4 6 0;J 0;H;W 11;J 1;H;C 0;I 0;U 0 6 0;U 0 0 0;R 0 6 0 1 2,3 0 -;R 0 0 0 1 3 0 -;R 4 6 0 2 2 0 -;Q 0 2;Q 0 3;JL 0",
+    "F 11;C 0;I 0;U 0 6 0;R 0 6 0 1 2 0 -;Q 0 2;J 0;H;W 2;J 1;FH;H;C 0;I 0;U 0 6 0;R 0 6 0 1 2,3 0 -;Q 0 2;Q 0 3",
+]
+CORPUS["C10"] = SCRIPT_CORPUS + INGRESS_FILTER_CORPUS
+CORPUS["C13"] = CORPUS["C13"] + SCRIPT_CORPUS + INGRESS_FILTER_CORPUS + [
     # fixed (C13-reload-wedge): with a router connected, the sixth reload wedged the bmp unit's gate (the router handler kept a gate
     # clone whose 16-command queue nobody read): the rib unit could not subscribe again, later routes never reached the RIB
     "C 0;I 0;U 0 0 0;H;H;H;H;H;H;R 0 0 0 1 1 0 -;Q 0 1",
@@ -453,10 +476,13 @@ def vrib_story(rng, ops):
     return res
 
 
-def script_story(rng, ops):
+def script_story(rng, ops, ing_filters=0):
     """Weaves a script story into a case: a start-up script, then 1-2 reloads preceded by edits of the script and / or of
     [units.rib2]; every Q gets a P next to it, and at the end both units are asked about the prefixes scripts may reject."""
-    pick = lambda: rng.weighted([(1, 16), (2, 16), (3, 16), (4, 12), (5, 10), (6, 10), (9, 10), (0, 10)])
+    ing = ing_filters and rng.chance(ing_filters)
+    # with the ingress units' filters: the same rib-in-pre variants plus 10 / 20 (a removed script stays 0)
+    tens = lambda s: s + rng.choice([10, 20]) if (ing and s != 0 and rng.chance(60)) else s
+    pick = lambda: tens(rng.weighted([(1, 16), (2, 16), (3, 16), (4, 12), (5, 10), (6, 10), (9, 10), (0, 10)]))
     out = list(ops)
     for _ in range(rng.range(1, 2)):
         block = []
@@ -475,10 +501,12 @@ def script_story(rng, ops):
         res.append(o)
         if o.startswith("Q "):
             res.append("P" + o[1:])
-    if rng.chance(70):
+    if ing or rng.chance(70):
         s0 = rng.weighted([(1, 20), (2, 20), (3, 20), (4, 15), (5, 10), (6, 10), (9, 5)])
+        if ing:
+            s0 += rng.choice([10, 20])
         res.insert(0, f"F {s0}")
-        if rng.chance(8):
+        if rng.chance(25 if ing else 8):
             # the start-up happens while something else holds the mutex around the compiled script
             res.insert(1, "FH")
     asked = []
@@ -518,11 +546,16 @@ def e2e_engine(prop):
                 for _ in range(rng.range(1, 3 if pr.get("variants") else 2)):
                     out.insert(rng.below(len(out) + 1), rng.choice(kinds))
             if pr.get("scripts") and rng.chance(pr["scripts"]):
-                out = script_story(rng, out)
+                out = script_story(rng, out, pr.get("ing_filters", 0))
             if pr.get("second") and rng.chance(pr["second"]):
                 out = [o for o in second_story(rng, out) if o.split()[0] not in ("M",)]
             if pr.get("bgp") and rng.chance(pr["bgp"]):
                 story = bgp_story(rng, out, pr.get("bgp_reloads", False))
+                if pr.get("ing_filters") and rng.chance(2 * pr["ing_filters"]):
+                    # the script of the start-up configuration has a bgp-in (and a bmp-in) filter; sometimes the units start while
+                    # something else holds the script's mutex (no rib-in-pre in these: the property's reading of E2eModel, filter_wop,
+                    # filters the routes of BMP messages only)
+                    story = [f"F {rng.choice([10, 20]) + rng.choice([0, 9])}"] + (["FH"] if rng.chance(30) else []) + story
                 if not pr["query_ops"]:
                     story = [o for o in story if not o.startswith("Q ")]
                 yield ";".join(story)
@@ -600,6 +633,8 @@ def e2e_engine(prop):
             ks.append("script-at-startup")
         if "W" in names:
             ks.append("script-edited")
+        if any(o.split()[0] in ("F", "W") and int(o.split()[1]) >= 10 for o in ops if o.split()):
+            ks.append("ingress-filters-in-script")
         if any(o.split()[0] == "W" and o.split()[1] == "0" for o in ops if o.split()):
             ks.append("script-removed")
         if any(x.startswith("p:") and x != "p:-" for x in t):
